@@ -70,6 +70,16 @@ theorem incremental_crc32 (bs : List (BitVec 8)) :
   | nil => rfl
   | cons b bs ih => simp only [List.foldl]; rw [update_crc32_eq, ih]
 
+/-- the hand-modelled function bodies are textually what the model was written from (the translator copies the
+    bodies out of `src/crc.rs`; any edit of them must be re-modelled, so it breaks this obligation) -/
+theorem source_skeleton_unchanged :
+    src_get_crc16 = "let mut crc = 0; for b in block { crc = update_crc16(crc, *b); } crc" ∧
+    src_update_crc16 = "(crc << 8) ^ CRC16_CCITT_TABLE[(((crc >> 8) as u8) ^ b) as usize]" ∧
+    src_update_slow = "let mut crc = !prev; for &byte in buf { crc = CRC32_TABLE[0][((crc as u8) ^ byte) as usize] ^ (crc >> 8); } !crc" ∧
+    src_update_crc32 = "(crc >> 8) ^ CRC32_TABLE[0][(b ^ crc as u8) as usize]" ∧
+    src_get_crc32_loop = "while buf.len() >= 16 { result = CHAIN; buf = &buf[16..]; } update_slow(!result, buf)" :=
+  ⟨rfl, rfl, rfl, rfl, rfl⟩
+
 /-! non-vacuity: the values of the repository's own unit tests -/
 example : getCrc16 [4, 0, 0, 5, 3] = 0x4690#16 := by decide +kernel
 example : getCrc32 [4, 0, 0, 5, 3] = 0xD7DCF422#32 := by decide +kernel
